@@ -82,3 +82,17 @@ Print Assumptions C01_accepted_schema_level_wf.
 Theorem C01_accepted_schema_message_header_ok : stmt_compile_message_header_ok.
 Proof. exact compile_message_header_ok. Qed.
 Print Assumptions C01_accepted_schema_message_header_ok.
+
+From Sbepp Require Import SrcTables SrcTablesProofs.
+
+(* tables regenerated from /repo's utils.hpp / sbe_schema_validator.hpp on
+   every run: a field of built-in primitive type p gets the wrapper of p, and
+   the size tables of the validator (layout) and of the generator (cursor
+   offsets) agree with the encoding width of p *)
+Theorem C01_source_wrapper_of_each_primitive : stmt_src_wrappers.
+Proof. exact src_wrappers. Qed.
+Print Assumptions C01_source_wrapper_of_each_primitive.
+
+Theorem C01_source_size_tables_agree : stmt_src_sizes.
+Proof. exact src_sizes. Qed.
+Print Assumptions C01_source_size_tables_agree.
